@@ -125,14 +125,15 @@ def rnpRec (v nm : α → Nat) [BEq α] (contents : Bool) (fuel : Nat) :
           (best, d0) tops).map (·.1)
 
 /-- `rnp(binner, numbins, items)` for `numbins ≤ 5`.
-    For `numbins ≥ 6` the real code fails with IndexError unless KK is already perfect (known finding KF1);
-    the model reports that outcome. -/
+    For `numbins ≥ 6` (and KK not already perfect) the real code computes `current_numbins/2` as a float and
+    indexes the prior bins with it: it mostly fails with IndexError (known finding KF1) and is **not modelled**;
+    the model answers `notImplemented` there and the harness judges the implementation's output directly. -/
 def rnp (v nm : α → Nat) [BEq α] (k : Nat) (contents : Bool) (items : List α) (fuel : Nat) : Except Err (Bins α) :=
   match kk v k items with
   | .error e => .error e
   | .ok best =>
     if spread best.sums = 0 then .ok best
-    else if k ≥ 6 then .error .indexError
+    else if k ≥ 6 then .error .notImplemented
     else rnpRec v nm contents fuel (k + 1) k ⟨[], []⟩ best items
 
 end Prtpy
